@@ -631,6 +631,10 @@ fn check_names(ch: &mut Choices, cx: &mut Ctx) -> R {
         }
         abbrevs.push(NAbbrev { code: if ch.chance(40) { 0x80 + i as u64 } else { i as u64 + 1 }, tag: ch.pick(&[0x2eu16, 0x34, 0x13, 0x39, 0x24]), attrs });
     }
+    // the abbreviation table may list its codes in any order (DWARF 5 imposes none)
+    if ch.chance(110) {
+        abbrevs.reverse();
+    }
     // names with generated strings; hashes are the reference DJB hash, occasionally forced to collide
     let nn = ch.below(9);
     let mut strs: Vec<u8> = vec![0];
